@@ -554,6 +554,59 @@ def r14_history_values_not_keys(idx, r):
         raise AnchorMissing("historyTracker: a function that post-processes a history mapping")
 
 
+def r15_restart_point_label_and_callers_list(idx, r):
+    """(a) prepRestartRun merges the old database up to - not including - the restart point the user set: mergeHistory receives the values of
+    the `startCycle` / `startNode` settings (the previous time node is what loadState gets, not what bounds the merge; for a restart at node 0
+    "previous node + 1" is a node that does not exist, and the whole old file would be merged).  (b) Operator.loadState is a pass-through to
+    DatabaseInterface.loadState: every parameter the two share is forwarded, the snapshot label included.  (c) getHistory / getHistories drop
+    the current step from the list of steps they were given: they do so on a copy - the caller's list is not theirs to edit."""
+    f = idx.method(DBI, "prepRestartRun")
+    mh = [c for c in iter_calls(f.node) if call_attr(c) == "mergeHistory"]
+    if len(mh) != 1:
+        raise AnchorMissing("prepRestartRun: mergeHistory")
+    env = single_assign_env(f.node)
+    for pos, name in ((1, "startCycle"), (2, "startNode")):
+        a = get_arg(mh[0], pos, name)
+        v = propagate(a, env) if a is not None else None
+        r.require(v is not None and norm(v) in (f"self.cs['{name}']", f'self.cs["{name}"]'), f"prepRestartRun:history-merged-up-to-{name}", f, node=mh[0],
+                  msg=f"mergeHistory is bounded by `{norm(v) if v is not None else None}`, not by the `{name}` setting: steps at or after the restart point are copied from the old file "
+                      "(for a restart at the first node of a cycle the bound is never met and everything, the EOL snapshot included, is merged)")
+    op = idx.method("armi.operators.operator.Operator", "loadState")
+    tgt = idx.method(DBI, "loadState")
+    calls = [c for c in iter_calls(op.node) if call_attr(c) == "loadState"]
+    if len(calls) != 1:
+        raise AnchorMissing("Operator.loadState: the delegation")
+    tp = tgt.params()[1:]
+    for name in [p for p in op.params()[1:] if p in tp]:
+        got = get_arg(calls[0], tp.index(name), name)
+        r.require(got is not None and norm(got) == name, f"Operator.loadState:forwards-{name}", op, node=calls[0],
+                  msg=f"`{norm(calls[0])}` does not hand `{name}` on: the caller's {name} is ignored (a labelled snapshot request loads the plain snapshot; a label never written is accepted)")
+    n = 0
+    for meth in ("getHistory", "getHistories"):
+        g = idx.method(DBI, meth)
+        for prm in [p for p in g.params()[1:] if p.lower().startswith("timestep")]:
+            def ev(nd, prm=prm):
+                if isinstance(nd, ast.Assign) and any(norm(t) == prm for t in nd.targets) and isinstance(nd.value, ast.Call) and dotted(nd.value.func) in ("copy.copy", "copy.deepcopy", "list", "sorted") \
+                        or isinstance(nd, ast.Assign) and any(norm(t) == prm for t in nd.targets) and isinstance(nd.value, (ast.ListComp, ast.List)):
+                    return ["own"]
+                return []
+            # the list is only edited when there is one: decide the paths on which the argument is not None
+            fl = Flow(g.node, ev, assume=lambda t, prm=prm: True if norm(t) == f"{prm} is not None" else (False if norm(t) == f"{prm} is None" else None)).run()
+            for c in iter_calls(g.node):
+                if isinstance(c.func, ast.Attribute) and norm(c.func.value) == prm and c.func.attr in ("remove", "append", "pop", "extend", "insert", "sort", "clear", "reverse"):
+                    n += 1
+                    st = fl.state_before(c) or {}
+                    r.require(st.get("own", (0, 0))[0] >= 1, f"{meth}:{prm}:edited-on-a-copy", g, node=c,
+                              msg=f"`{norm(c)}` edits the list the caller passed in: a client that reuses one list of steps for several queries loses a step with every call and later histories come back incomplete")
+    if n < 2:
+        raise AnchorMissing("getHistory/getHistories: removal of the current step")
+
+
+def r16_pairing(idx, r):
+    from ..pairing import pairing_rule
+    pairing_rule(idx, r, ["armi.bookkeeping.db.databaseInterface", "armi.bookkeeping.db.database", "armi.bookkeeping.historyTracker", "armi.bookkeeping.snapshotInterface"], 40)
+
+
 def run(idx, chk):
     chk.explanation = (
         "C06: writers of the successfulCompletion flag and callers that can pass a true value; the chain Case.run -> Operator.__exit__ -> "
@@ -587,3 +640,7 @@ def run(idx, chk):
                  necessary="a completed run holds every node plus the end-of-life state")
     chk.run_rule("R06.14", "history mappings are read through .values()/.items(), never iterated as if they were the values", lambda r: r14_history_values_not_keys(idx, r), floor=1,
                  necessary="a parameter history returns for each step the value the object had at that step")
+    chk.run_rule("R06.15", "the merge is bounded by the start settings; Operator.loadState forwards every shared parameter; the caller's list of steps is edited on a copy", lambda r: r15_restart_point_label_and_callers_list(idx, r), floor=6,
+                 necessary="a restarted run holds exactly the steps before the restart point plus its own; a snapshot is found under the label asked for; histories hold every requested step")
+    chk.run_rule("R06.16", "arguments stand at the parameter they are named after; sibling calls forward the same pass-through parameters", lambda r: r16_pairing(idx, r), floor=1,
+                 necessary="(cycle, node, label) reach the reader in that order")
